@@ -1,0 +1,125 @@
+//! Verification hooks (compiled only with `--cfg darklua_verif`).
+//!
+//! Thin public wrappers around crate-private functions so that an external harness can
+//! call them directly, plus an opt-in thread-local trace used by the generators. Nothing
+//! here changes darklua's behaviour; without the cfg flag this module does not exist.
+
+use std::cell::RefCell;
+use std::path::{Path, PathBuf};
+
+use crate::nodes::Expression;
+use crate::rules::require::PathLocator;
+pub use crate::rules::require::{LuauRequireMode, PathRequireMode};
+use crate::Resources;
+
+pub use crate::generator::utils::{
+    break_concat, break_equal, break_long_string, break_minus, break_variable_arguments,
+    count_new_lines, ends_with_prefix, should_break_with_space, starts_with_parenthese,
+    write_interpolated_string_segment, write_number, write_string,
+};
+
+pub fn normalize_path(path: &Path) -> PathBuf {
+    crate::utils::normalize_path(path)
+}
+
+pub fn normalize_path_with_current_dir(path: &Path) -> PathBuf {
+    crate::utils::normalize_path_with_current_dir(path)
+}
+
+/// `Err` carries the error message of an invalid glob pattern.
+pub fn filter_pattern_matches(pattern: &str, path: &Path) -> Result<bool, String> {
+    crate::utils::FilterPattern::new(pattern.to_owned())
+        .map(|filter| filter.matches(path))
+        .map_err(|err| err.to_string())
+}
+
+pub fn find_require_paths(path: &Path, module_folder_name: &str) -> Vec<PathBuf> {
+    crate::rules::require::find_require_paths_for_verif(path, module_folder_name)
+}
+
+pub fn path_locator_find(
+    mode: &PathRequireMode,
+    project_location: &Path,
+    resources: &Resources,
+    require: &Path,
+    source: &Path,
+) -> Result<PathBuf, String> {
+    crate::rules::require::RequirePathLocator::new(mode, project_location, resources)
+        .find_require_path(require.to_path_buf(), source)
+        .map_err(|err| err.to_string())
+}
+
+pub fn luau_path_locator_find(
+    mode: &LuauRequireMode,
+    project_location: &Path,
+    resources: &Resources,
+    require: &Path,
+    source: &Path,
+) -> Result<PathBuf, String> {
+    crate::rules::require::LuauPathLocator::new(mode, project_location, resources)
+        .find_require_path(require.to_path_buf(), source)
+        .map_err(|err| err.to_string())
+}
+
+pub fn is_valid_identifier(identifier: &str) -> bool {
+    crate::process::utils::is_valid_identifier(identifier)
+}
+
+/// The first `count` identifiers produced by the rename permutator (valid identifiers only).
+pub fn generated_identifiers(count: usize) -> Vec<String> {
+    let mut permutator = crate::process::utils::identifier_permutator();
+    (0..count)
+        .map(|_| crate::process::utils::generate_identifier(&mut permutator))
+        .collect()
+}
+
+/// The first `count` raw strings produced by the permutator (before the validity filter).
+pub fn permutator_raw(count: usize) -> Vec<String> {
+    crate::process::utils::identifier_permutator()
+        .take(count)
+        .collect()
+}
+
+pub fn to_expression<T: serde::Serialize>(value: &T) -> Result<Expression, String> {
+    crate::process::to_expression(value).map_err(|err| err.to_string())
+}
+
+// ---- writer trace -------------------------------------------------------------------
+
+/// One primitive write performed by a generator.
+#[derive(Debug, Clone, PartialEq, Eq)]
+pub struct TraceOp {
+    /// which primitive (e.g. `push_str`, `write_trivia`, `symbol`)
+    pub op: &'static str,
+    /// textual content involved, if any
+    pub text: String,
+    /// numeric detail (line number, flag, ...), meaning depends on `op`
+    pub detail: i64,
+}
+
+thread_local! {
+    static TRACE: RefCell<Option<Vec<TraceOp>>> = const { RefCell::new(None) };
+}
+
+/// Start recording on this thread (clears any previous recording).
+pub fn trace_start() {
+    TRACE.with(|t| *t.borrow_mut() = Some(Vec::new()));
+}
+
+/// Stop recording and return what was recorded.
+pub fn trace_take() -> Vec<TraceOp> {
+    TRACE.with(|t| t.borrow_mut().take().unwrap_or_default())
+}
+
+#[inline]
+pub fn trace(op: &'static str, text: &str, detail: i64) {
+    TRACE.with(|t| {
+        if let Some(ops) = t.borrow_mut().as_mut() {
+            ops.push(TraceOp {
+                op,
+                text: text.to_owned(),
+                detail,
+            });
+        }
+    });
+}
